@@ -1013,6 +1013,15 @@ func (ex *Exec) frameCheck(rec *recorder, pos token.Pos) {
 				ex.specErr("bad modifies item %q", item)
 				continue
 			}
+			// a ghost without parameters is a single cell: the whole (one-entry) array is its frame
+			if ce, ok := e.(*ast.CallExpr); ok && len(ce.Args) == 0 {
+				if id, ok := ce.Fun.(*ast.Ident); ok {
+					if g, ok := ex.eng.cs.Ghosts[id.Name]; ok && len(g.Params) == 0 {
+						allowedAll[heapKey("G$", g.Name)] = true
+						continue
+					}
+				}
+			}
 			ex.specDepth++
 			locs := ex.specLocs(ex.entry, e, sc)
 			ex.specDepth--
@@ -1055,7 +1064,7 @@ func (ex *Exec) frameCheck(rec *recorder, pos token.Pos) {
 			}
 			h1 := s2.heap[k]
 			if h1 == "" {
-				h1 = ex.eng.smt.named("H"+s2.epoch+"_"+k, srt)
+				h1 = ex.eng.smt.named("H"+s2.epochOf(k)+"_"+k, srt)
 			}
 			h0 := ex.eng.smt.named("H0_"+k, srt)
 			states = append(states, s2)
